@@ -130,6 +130,11 @@ func c03Sequential(c *vlib.Ctx) {
 // observations of the named property and of its neighbour (a stale call that
 // takes effect shows as C04, the double delivery that follows as C03) count.
 func leaseDirected(c *vlib.Ctx, prop string) {
+	// every duration a consumer was confirmed (lease_ttl, extend_by once and twice) keeps the
+	// message away from other consumers until exactly that instant, through every transport
+	for _, be := range []string{"memory", "sqlite"} {
+		leasecheck.TimingProbe(c, vlib.Derive(c.Seed, prop+"timing", be), be, prop+"/timing/"+be)
+	}
 	for _, d := range storecheck.LeaseScenarios() {
 		for _, be := range []string{"memory", "sqlite"} {
 			storecheck.RunSequence(c, vlib.Derive(c.Seed, prop+"dir", d.Name, be), storecheck.RunCfg{
